@@ -36,7 +36,7 @@ TABLE_OF_VIEW_ATTR = {"_id_dict", "_id_attr", "_bi_id_dict", "_bi_id_attr"}
 def run(ctx):
     repo = ctx.repo
     res = Result(PROP)
-    res.rules = ["V-LIVE", "V-REBIND", "V-NOCACHE", "V-ORDER", "V-FILTER", "V-FWD", "V-UNION", "V-ZERO", "V-SIDE"]
+    res.rules = ["V-LIVE", "V-REBIND", "V-NOCACHE", "V-ORDER", "V-IDS", "V-FILTER", "V-FWD", "V-UNION", "V-ZERO", "V-SIDE"]
     res.explanation = (
         "Structural rules over the view and stat classes and a package-wide who-may-rebind scan (effect analysis): views "
         "alias the live tables, nothing is cached, ordered outputs are tagged with the provenance of their iteration "
@@ -53,6 +53,7 @@ def run(ctx):
     check_nocache(repo, res, idview, stats)
     check_order(repo, res, idview, stats)
     check_filter(repo, res, idview)
+    check_ids_owner(repo, res)
     # V-FWD: the public methods of the view classes read every parameter and forward keywords under their own name
     # (sources/targets are aliases of tail/head; a dropped `e=` or `dtype=` changes what is returned)
     from .c05_edits import check_params
@@ -89,6 +90,67 @@ def run(ctx):
                  lambda nd: f"`{unparse(nd, 60)}` replaces a stored attribute value by a default whenever it is falsy; an edge whose weight is 0 then counts with the default weight, so the weighted statistic no longer equals the sum over the current structure",
                  "`<lookup> or <number>` on stored attribute values")
     return res
+
+
+VIEW_CLASS_NAMES = ("IDView", "NodeView", "EdgeView", "DiNodeView", "DiEdgeView")
+
+
+def ids_write_sites(fn_node):
+    """Assignments / setattr / __dict__ stores that bind the `_ids` slot of some object."""
+    for n in ast.walk(fn_node):
+        if isinstance(n, (ast.Assign, ast.AugAssign, ast.AnnAssign)):
+            tgts = n.targets if isinstance(n, ast.Assign) else [n.target]
+            for t in tgts:
+                for x in ast.walk(t):
+                    if isinstance(x, ast.Attribute) and x.attr == "_ids" and isinstance(x.ctx, ast.Store):
+                        yield n
+                    if isinstance(x, ast.Subscript) and isinstance(x.slice, ast.Constant) and x.slice.value == "_ids" and isinstance(x.ctx, ast.Store):
+                        yield n
+        if isinstance(n, ast.Call) and getattr(n.func, "id", getattr(n.func, "attr", None)) in ("setattr", "__setattr__") and any(isinstance(a, ast.Constant) and a.value == "_ids" for a in n.args):
+            yield n
+
+
+def check_ids_owner(repo, res):
+    """V-IDS: which IDs a view shows, and in which order, is decided in exactly two places - IDView.__init__ (all IDs:
+    the live table) and IDView.from_view (a bunch: validated against the table and listed in table order; rules V-LIVE
+    and V-ORDER check those two).  Every other way of producing a view must go through them: no other function binds
+    `_ids`, and no view class is instantiated with an explicit ID list outside the views' own constructors.  A set
+    operation, filter or lookup that installed its own list would hand out IDs that are not in the network or in an
+    order different from H.nodes(bunch) / the statistics computed over the same IDs."""
+    owners = {"IDView.__init__", "IDView.from_view"}
+    pos = ast.parse("def _from_iterable(self, it):\n    v = self.from_view(self)\n    v._ids = list(dict.fromkeys(it))\n    return v\n").body[0]
+    if not list(ids_write_sites(pos)):
+        raise AnalysisError("V-IDS self-check: the embedded positive example is no longer recognised")
+    n = 0
+    found_owner_writes = 0
+    for fn in repo.all_functions():
+        for st in ids_write_sites(fn.node):
+            n += 1
+            if fn.qualname in owners:
+                found_owner_writes += 1
+                continue
+            res.inst("V-IDS", f"{fn.fq}:{st.lineno} binds _ids", False)
+            res.add(mk_finding(PROP, "V-IDS", fn, st, f"{fn.qualname} installs its own ID list in a view (`{unparse(st, 60)}`) instead of going through from_view: the IDs are neither checked against the network nor listed in the network's order, so the view disagrees with H.nodes(bunch) / H.edges(bunch) over the same IDs and can hold IDs that do not exist", role="_ids"))
+        # explicit ID list handed to a view constructor
+        for c in ast.walk(fn.node):
+            if not isinstance(c, ast.Call):
+                continue
+            f = c.func
+            name = f.id if isinstance(f, ast.Name) else None
+            is_cls_call = name in VIEW_CLASS_NAMES or (isinstance(f, ast.Attribute) and f.attr == "__class__" and fn.cls is not None and fn.cls.name in VIEW_CLASS_NAMES) or (name == "cls" and fn.cls is not None and fn.cls.name in VIEW_CLASS_NAMES)
+            if not is_cls_call:
+                continue
+            n += 1
+            extra = list(c.args[1:]) + [k.value for k in c.keywords if k.arg in ("bunch", "ids", None)]
+            bad = [a for a in extra if not (isinstance(a, ast.Constant) and a.value is None)]
+            if fn.cls is not None and fn.cls.name in VIEW_CLASS_NAMES and fn.name == "__init__":
+                bad = []
+            res.inst("V-IDS", f"{fn.fq}:{c.lineno} view constructed without an explicit ID list", not bad)
+            if bad:
+                res.add(mk_finding(PROP, "V-IDS", fn, c, f"{fn.qualname} constructs a view with an explicit ID list (`{unparse(c, 60)}`); only from_view validates the IDs and lists them in the network's order", role="ctor"))
+    if found_owner_writes < 3:
+        raise AnalysisError(f"V-IDS: expected the assignments of _ids in IDView.__init__ and from_view, found {found_owner_writes} (extractor does not recognise the code)")
+    res.inst("V-IDS", f"{n} bindings of _ids / view constructions examined; only IDView.__init__ and from_view bind _ids", True)
 
 
 def sum_of_sides_sites(fn_node):
